@@ -526,7 +526,7 @@ def gen(ctx):
     shp = shapes(3)
     anns = list(ANNOT)
     k = 0
-    reps = 16 if full else 5
+    reps = 150 if full else 20
     for ps in shp:
         for _ in range(reps):
             k += 1
